@@ -555,3 +555,44 @@ func ZZ_C04_labelsDespiteStaleCanaryNode() {
 	nondet.Assert("C04.stale.no-pod-on-stale-node", c.Count("create", "Pod") == 0 || stale == zzNodeName(0) && len(c.Nodes[0].Spec.Taints) == 0)
 	nondet.Reach("C04.stale.stale-entry-first", list[0] == "node-gone")
 }
+
+// ZZ_C04_failedPodOnCanaryNode: "the active replica set neither creates nor deletes pods on those
+// nodes" — whatever state the canary's pod there is in.  Canary in progress on node0 whose pod was
+// evicted (phase Failed, not yet removed), crash-looping, pending, or is missing altogether; node1
+// runs the active template.  A sync of the ACTIVE replica set (with or without a running back-off
+// entry for node0) writes nothing on node0: replacing a failed canary pod is the canary replica
+// set's business, with its own back-off.
+func ZZ_C04_failedPodOnCanaryNode() {
+	c, ds, rsNew, rsOld := zzStore(2)
+	ds.Spec.Strategy.Canary = &datadoghqv1alpha1.ExtendedDaemonSetSpecStrategyCanary{}
+	datadoghqv1alpha1.DefaultExtendedDaemonSetSpec(&ds.Spec, datadoghqv1alpha1.ExtendedDaemonSetSpecStrategyCanaryValidationModeAuto)
+	// the replica set under sync (foo-new) is the ACTIVE one, foo-old plays the canary
+	ds.Status.ActiveReplicaSet = rsNew.Name
+	ds.Status.Canary = &datadoghqv1alpha1.ExtendedDaemonSetStatusCanary{ReplicaSet: rsOld.Name, Nodes: []string{zzNodeName(0)}}
+	ds.Status.State = datadoghqv1alpha1.ExtendedDaemonSetStatusStateCanary
+	switch nondet.String("canaryPod", "failed", "running-not-ready", "pending", "missing") {
+	case "failed":
+		c.Pods = append(c.Pods, zzPod("canary-pod", zzNodeName(0), zzOldRS, zzHashOld, 0, corev1.PodFailed, false, nondet.Base().Add(-600*1e9)))
+	case "running-not-ready":
+		c.Pods = append(c.Pods, zzPod("canary-pod", zzNodeName(0), zzOldRS, zzHashOld, 0, corev1.PodRunning, false, nondet.Base().Add(-600*1e9)))
+	case "pending":
+		c.Pods = append(c.Pods, zzPod("canary-pod", zzNodeName(0), zzOldRS, zzHashOld, 1, corev1.PodPending, false, nondet.Base().Add(-600*1e9)))
+	}
+	for _, p := range c.Pods {
+		p.Labels[datadoghqv1alpha1.ExtendedDaemonSetReplicaSetCanaryLabelKey] = datadoghqv1alpha1.ExtendedDaemonSetReplicaSetCanaryLabelValue
+	}
+	c.Pods = append(c.Pods, zzPod("active-pod", zzNodeName(1), zzRSName, zzHashNew, 0, corev1.PodRunning, true, nondet.Base().Add(-3600*1e9)))
+	r := zzReconciler(c, nondet.Bool("nodeAffinityMode"))
+	if nondet.Bool("backoffRunningForNode0") {
+		r.failedPodsBackOff.Next(getBackOffKey(rsNew, zzNodeName(0)), r.failedPodsBackOff.Clock.Now())
+	}
+	_, err := zzReconcile(r, zzNS, rsNew.Name)
+	nondet.Assert("C04.failed.noerror", err == nil)
+	for _, e := range c.Writes() {
+		if e.Kind == "Pod" {
+			nondet.Assert("C04.failed.active-writes-nothing-on-canary-node", e.Node != zzNodeName(0) && e.Name != "canary-pod")
+		}
+	}
+	nondet.Observe("podWrites", c.Count("create", "Pod")+c.Count("delete", "Pod"))
+	nondet.Reach("C04.failed.evicted-pod-present", len(c.Pods) == 2 && c.Pods[0].Status.Phase == corev1.PodFailed)
+}
